@@ -275,6 +275,7 @@ class FreeEnergy(InterpolatableFunction):
             If a float, this gives the starting step size in units of the maximum step size :py:data:`dT`. If :py:data:`None` then uses the initial step size algorithm of :py:mod:`scipy.integrate.solve_ivp`. Default is :py:data:`None`
         """
         # make sure the initial conditions are extra accurate
+        # (gradient tolerances below are in units of T0**3, as for err further down)
         extraTol = 0.01 * rTol
 
         # initial values, should be nice and accurate
@@ -282,7 +283,7 @@ class FreeEnergy(InterpolatableFunction):
         phase0Temp, potential0 = self.effectivePotential.findLocalMinimum(
             self.startingPhaseLocationGuess,
             T0,
-            tol=extraTol,
+            tol=extraTol * T0**3,
         )
         phase0 = FieldPoint(phase0Temp[0])
 
@@ -355,7 +356,7 @@ class FreeEnergy(InterpolatableFunction):
                     phaset, potentialEffT = self.effectivePotential.findLocalMinimum(
                         Fields((ode.y)),
                         ode.t,
-                        tol=rTol,
+                        tol=rTol * T0**3,
                     )
                     ode.y = phaset[0]
                 if spinodalEvent(ode.t, ode.y) <= 0:
@@ -369,7 +370,7 @@ class FreeEnergy(InterpolatableFunction):
                             self.effectivePotential.findLocalMinimum(
                                 Fields((ode.y)),
                                 ode.t,
-                                tol=extraTol,
+                                tol=extraTol * T0**3,
                             )
                         )
                         ode.y = phaset[0]
